@@ -234,6 +234,12 @@ def inverse_topology(outer, update, topology, inverse=None, multi_updates=True):
                     for update_key in update[key].keys():
                         if update_key not in path and '*' not in path:
                             path[update_key] = (update_key,)
+                elif not path:
+                    # the port is a variable that is wired with a
+                    # '_path' alone: the update is the variable's
+                    inverse = _assoc_leaf_update(
+                        inverse, inner, value, multi_updates)
+                    continue
 
                 inverse = inverse_topology(
                     inner,
